@@ -35,9 +35,17 @@ def keyname(kc):
 
 def policy(pol, which, path):
     rules = pol.get("rules") or {}
-    if path in rules:
+    if path in rules and rules[path] in MODES[which]:
         return rules[path]
+    # (a rule naming a mode of another kind of node than the one being merged
+    # - "deep" for what turns out a plain Array - does not apply)
     return pol[which]
+
+
+MODES = {"hashes": ("deep", "left", "right"),
+         "arrays": ("all", "left", "right", "unique"),
+         "aoh": ("all", "deep", "left", "right", "unique"),
+         "sets": ("left", "right", "unique")}
 
 
 def merge(L, R, pol):
@@ -182,7 +190,7 @@ def merge_lists(L, R, pol, path):
         if e in L[1]:
             continue
         if e in out:
-            raise Unspecified("duplicates within the right-hand array")
+            continue               # (unique: a repeat is added once)
         out.append(e)
     return ("l", tuple(out))
 
@@ -201,7 +209,7 @@ def merge_aoh(L, R, pol, path):
             if e in L[1]:
                 continue
             if e in out:
-                raise Unspecified("duplicates within the right-hand array")
+                continue
             out.append(e)
         return ("l", tuple(out))
     # deep: by identity key
